@@ -10,7 +10,11 @@ import (
 )
 
 func varsQuery(q Node) Node {
-	return With(BaseQ(), "sel", q["sel"])
+	out := With(BaseQ(), "sel", q["sel"])
+	if l, ok := q["lim"]; ok && num(l) >= 0 {
+		out["limit"] = int(num(l))
+	}
+	return out
 }
 
 // C20: a history of queries sharing one variable map; rows and the caller's map
@@ -116,7 +120,11 @@ func recordVars(w io.Writer, prog []Node, vars0 Node) (events int, sqls []string
 		for _, it := range seq(qn["sel"]) {
 			sel = append(sel, itemAst(it.(Node)))
 		}
-		sql := Style{}.Query(With(BaseQ(), "sel", sel))
+		tq := With(BaseQ(), "sel", sel)
+		if l, ok := qn["lim"]; ok && num(l) >= 0 {
+			tq["limit"] = int(num(l))
+		}
+		sql := Style{}.Query(tq)
 		sqls = append(sqls, sql)
 		doc := map[string]any{"t": FromTagged(Node{"t": "arr", "e": qn["tbl"]})}
 		varsLogMu.Lock()
@@ -192,7 +200,11 @@ func init() {
 				for j := range rows {
 					rows[j] = TObj(Node{"a": TInt(g.R.Intn(10)), "b": normNum(TNum(g.R.Intn(9), 2))})
 				}
-				prog = append(prog, Node{"sel": sel, "tbl": rows})
+				lim := -1
+				if g.R.Intn(3) == 0 {
+					lim = g.R.Intn(5)
+				}
+				prog = append(prog, Node{"sel": sel, "tbl": rows, "lim": lim})
 			}
 			ev, sqls := recordVars(w, prog, Node{"t": "obj", "f": vars0})
 			info.Queries++
